@@ -45,6 +45,7 @@ type sched struct {
 	outer, inner *an.Loop
 	launch       *ssa.Go       // the go statement that starts a stage
 	launchFn     *ssa.Function // function containing it
+	loopFn       *ssa.Function // function containing the per-stage loop (launchFn or a synchronous caller of it)
 	body         *ssa.Function // function run by the goroutine
 	bodyStage    ssa.Value     // the stage inside body (parameter or free variable)
 	runnerCalls  []ssa.CallInstruction // calls in body that synchronously reach Runner.Run
@@ -177,17 +178,40 @@ func resolveSched(c *an.Ctx, rule string) *sched {
 		})
 	}
 
-	// loops of the launch function: the per-stage loop ranges over Nodes()
-	loops := an.Loops(s.launchFn)
-	s.inner = an.InnermostLoop(loops, s.launch.Block())
-	if s.inner == nil {
-		c.Und(rule, "scheduler.(*Scheduler).Schedule:loop", s.launch.Pos(), "launch site is not inside a loop")
-		return s
-	}
-	for _, l := range loops {
-		if l != s.inner && l.Blocks[s.inner.Header] && (s.outer == nil || len(l.Blocks) < len(s.outer.Blocks)) {
-			s.outer = l
+	// the per-stage loop: the innermost loop around the launch, in the launch function itself or in a
+	// synchronous caller of it (the body of the loop may have been extracted into a helper)
+	{
+		site := ssa.Instruction(s.launch)
+		fn := s.launchFn
+		for depth := 0; depth < 4 && s.inner == nil; depth++ {
+			loops := an.Loops(fn)
+			if l := an.InnermostLoop(loops, site.Block()); l != nil {
+				s.inner, s.loopFn = l, fn
+				for _, l2 := range loops {
+					if l2 != l && l2.Blocks[l.Header] && (s.outer == nil || len(l2.Blocks) < len(s.outer.Blocks)) {
+						s.outer = l2
+					}
+				}
+				break
+			}
+			var callers []ssa.CallInstruction
+			for _, cs := range p.CallSitesOf(fn) {
+				if _, isGo := cs.(*ssa.Go); isGo {
+					continue
+				}
+				if _, ok := syncReach[cs.Parent()]; ok || cs.Parent() == s.schedule {
+					callers = append(callers, cs)
+				}
+			}
+			if len(callers) != 1 {
+				break
+			}
+			site, fn = callers[0], callers[0].Parent()
 		}
+	}
+	if s.inner == nil {
+		c.Und(rule, "scheduler.(*Scheduler).Schedule:loop", s.launch.Pos(), "launch site is not inside a loop (neither in %s nor in its synchronous callers)", an.Short(s.launchFn))
+		return s
 	}
 	_, vals := s.inner.RangeKeyValue()
 	if len(vals) >= 1 {
